@@ -408,4 +408,14 @@ def rule_collected_sorts(ctx):
     collect.check_variable_leaves(ctx, "COLLECT", ctx.facts)
 
 
-RULES = [rule_tokens, rule_sorts, rule_comparison, rule_prec, rule_pre1, rule_one_constant_per_symbol, rule_collected_sorts]
+def rule_rename_covers_the_whole_problem(ctx):
+    """a symbol that collides with a predicate is renamed in every formula of the problem, conclusions included: the renaming is the last
+    step of every problem chain (C09's chain obligations)"""
+    from . import c09
+    sub = type(ctx)(ctx.prop, ctx.tier, ctx.facts)
+    c09.rule_problem_rename(sub)
+    c09.rule_names(sub)
+    ctx.obls.extend(o for o in sub.obls if o["key"].startswith(("NS:problem-rename", "NAMES:chain:", "NAMES:all-chains-seen")))
+
+
+RULES = [rule_tokens, rule_sorts, rule_comparison, rule_prec, rule_pre1, rule_one_constant_per_symbol, rule_collected_sorts, rule_rename_covers_the_whole_problem]
